@@ -4,6 +4,7 @@ package commands
 
 import (
 	"bytes"
+	"fmt"
 	"os"
 	"path/filepath"
 	"strings"
@@ -408,5 +409,45 @@ func VerifC18GenerateNative() {
 		so, _, code := v.RunCmd(dir, acv, "generate", pf)
 		v.Assert("C18.stdout-exact", so == unit.Code+"\n")
 		v.Assert("C18.exit-zero", code == 0)
+	}
+}
+
+// VerifC18LargeFilesNative (native only: sizes the executor's byte-wise file model does not reach):
+// input files of 1.2 and 3 MiB - a data file with long descriptions, a profile with a long comment -
+// through the built command: standard output and the output file are exactly the library's report.
+func VerifC18LargeFilesNative() {
+	dir, err := os.MkdirTemp("", "verifc18big")
+	if err != nil {
+		panic(err)
+	}
+	defer os.RemoveAll(dir)
+	acv := v.BuildACV(dir)
+	prof := "#%Validation Profile 1.0\nprofile: T\nviolation:\n  - v1\nvalidations:\n  v1:\n    message: m\n    targetClass: apiContract.EndPoint\n    propertyConstraints:\n      core.description:\n        minCount: 1\n"
+	node := func(k int, fill int) string {
+		return fmt.Sprintf(`{"@id": "http://x/n%d", "@type": "http://a.ml/vocabularies/apiContract#EndPoint", "http://a.ml/vocabularies/core#name": "%s"}`, k, strings.Repeat("x", fill))
+	}
+	var nodes []string
+	for k := 0; k < 50; k++ {
+		nodes = append(nodes, node(k, 25000))
+	}
+	bigData := `{"@graph": [` + strings.Join(nodes, ",\n") + "]}"
+	bigProfile := "#%Validation Profile 1.0\n# " + strings.Repeat("c", 3<<20) + "\n" + strings.TrimPrefix(prof, "#%Validation Profile 1.0\n")
+	small := node(0, 10)
+	for _, pd := range [][2]string{{prof, bigData}, {bigProfile, small}, {prof, small + strings.Repeat(" ", 1<<20) + "\n"}} {
+		pf, df, of := filepath.Join(dir, "p.yaml"), filepath.Join(dir, "d.jsonld"), filepath.Join(dir, "out.json")
+		os.WriteFile(pf, []byte(pd[0]), 0o644)
+		os.WriteFile(df, []byte(pd[1]), 0o644)
+		lib, lerr := validator.Validate(pd[0], pd[1], false, nil)
+		if lerr != nil {
+			panic(lerr)
+		}
+		so, _, code := v.RunCmd(dir, acv, "validate", pf, df)
+		v.Assert("C18.stdout-exact", dropDate(so) == dropDate(lib+"\n"))
+		v.Assert("C18.exit-zero", code == 0)
+		os.Remove(of)
+		so2, _, code2 := v.RunCmd(dir, acv, "validate", pf, df, of)
+		written, _ := os.ReadFile(of)
+		v.Assert("C18.file-exact", dropDate(string(written)) == dropDate(lib) && so2 == "")
+		v.Assert("C18.exit-zero", code2 == 0)
 	}
 }
